@@ -645,8 +645,9 @@ class Probe:
 
     def __init__(self):
         self.stmt, self.calls, self.used, self.oracle_escapes, self.gave_up = {}, {}, set(), [], []
-        # oracle py_stmt_errline (Compiler/ParseBase.v): for a statement Python rejected, `e.lineno - 1 if e.lineno
-        # else 0` of the real SyntaxError -- what core.py adds to the index of the `~` line
+        # oracle py_stmt_errline (Compiler/ParseBase.v): for a statement Python rejected, `max(e.lineno - 1, 0) if
+        # e.lineno else 0` of the real SyntaxError -- what core.py, after clamping it to the lines the statement
+        # consumed (fix F14c), adds to the index of the `~` line
         self.errline = {}
 
     def __enter__(self):
@@ -683,7 +684,7 @@ class Probe:
                     probe.calls[source[7:-1]] = (None, True)
                 else:
                     probe.stmt[source] = False
-                    probe.errline[source] = e.lineno - 1 if e.lineno else 0
+                    probe.errline[source] = max(e.lineno - 1, 0) if e.lineno else 0
                 raise
             except (RecursionError, MemoryError, ValueError) as e:
                 # Python's parser gave up: the compiler reports that as a SyntaxError (fix 6f31489), so the
